@@ -64,6 +64,8 @@ class Sys:
 
             if form == "bare":
                 deco = L.lru_cache
+            elif form == "direct":      # lru_cache(user_function, typed): maxsize stays at its default
+                deco = lambda f_: L.lru_cache(f_, typed)  # noqa: E731
             elif form == "cache":
                 deco = L.cache
             else:
@@ -74,12 +76,14 @@ class Sys:
 
             if form == "bare":
                 deco = functools.lru_cache
+            elif form == "direct":
+                deco = lambda f_: functools.lru_cache(f_, typed)  # noqa: E731
             elif form == "cache":
                 deco = functools.cache
             else:
                 deco = functools.lru_cache(maxsize=maxsize, typed=typed)
         self.insts = {}
-        if form in ("func", "bare", "cache"):
+        if form in ("func", "bare", "cache", "direct"):
             self.f = deco(fn)
             self.target = lambda n: self.f
         else:
@@ -165,7 +169,7 @@ TIERS = {
         (1, False, [1, 4, 9, 13], "func", 5), (None, False, [5, 6, 7, 8, 12, 13], "func", 4),
         (0, False, [1, 2], "func", 4), (-1, True, [1, 14], "func", 4),
         (3, False, [10, 11, 12, 16, 5], "func", 4), (3, True, [10, 16, 12, 11], "func", 4), (2, False, [1, 2, 14], "method", 4),
-        (128, False, [1, 2, 3, 14, 15], "bare", 4), (None, False, [1, 2, 3, 13], "cache", 4),
+        (128, False, [1, 2, 3, 14, 15], "bare", 4), (None, False, [1, 2, 3, 13], "cache", 4), (128, True, [1, 2, 3, 5], "direct", 4),
         (2, False, [1, 14], "classmethod", 4), (2, True, [1, 2], "staticmethod", 4),
     ],
     "thorough": [
@@ -175,7 +179,8 @@ TIERS = {
         (0, False, [1, 2, 3], "func", 5), (-1, True, [1, 14, 2], "func", 5), (5, False, list(range(1, 17)), "func", 4),
         (3, False, [10, 11, 12, 16, 5, 6], "func", 5), (3, True, [10, 11, 12, 16, 5, 6], "func", 5),
         (2, False, [1, 2, 14, 15], "method", 5), (2, True, [1, 2, 3], "method", 5),
-        (128, False, [1, 2, 3, 14, 15, 4], "bare", 5), (None, False, [1, 2, 3, 4, 9], "cache", 5),
+        (128, False, [1, 2, 3, 14, 15, 4], "bare", 5), (None, False, [1, 2, 3, 4, 9], "cache", 5), (128, True, [1, 2, 3, 5, 6, 14], "direct", 5),
+        (128, False, [1, 2, 3, 5], "direct", 4),
         (2, False, [1, 14, 2], "classmethod", 5), (2, True, [1, 2, 14], "staticmethod", 5),
     ],
 }
@@ -222,6 +227,8 @@ def expected_params(maxsize, typed, form):
         return {"maxsize": 128, "typed": False}
     if form == "cache":
         return {"maxsize": None, "typed": False}
+    if form == "direct":
+        return {"maxsize": 128, "typed": typed}
     return {"maxsize": None if maxsize is None else max(maxsize, 0), "typed": typed}
 
 
@@ -247,7 +254,7 @@ def replay_path(args):
             if op == "hit":
                 r2 = ("ok", vals.get(mkey))
             elif op == "miss":
-                r2 = ("ok", None if p == 13 and form in ("func", "bare", "cache", "staticmethod") else ("result", len(real.invocations)))
+                r2 = ("ok", None if p == 13 and form in ("func", "bare", "cache", "direct", "staticmethod") else ("result", len(real.invocations)))
                 if mkey is not None:
                     vals[mkey] = r2[1]
             else:
